@@ -40,6 +40,10 @@ static int exist_used[NOBJ];
 static int call_used[NCALL], call_handle[NCALL];
 static int sent_used[NSENT], sent_owner[NSENT];
 static object_t *sent_ownerp[NSENT];
+static object_t *user_ob = 0;	/* the interactive user input_to() waits for */
+static int input_pending = 0;
+extern interactive_t *create_test_interactive (object_t * ob);
+extern int call_function_interactive (interactive_t * i, char *str);
 static int depth = 0;
 static int applied = 0;	/* an apply() happened: allocd_strings is no longer compared (apply cache) */
 
@@ -47,12 +51,44 @@ static struct { void *p; int kind; } cells[8192];
 static int ncells = 0;
 
 static long base[7];
+static char *fn_names[6];		/* shared strings "cb", "cbs0".."cbs3", "act" of the uobj program */
+static long fn_base = 0;
+static long fn_refs (void)
+{
+  long n = 0;
+  for (int i = 0; i < 6; i++)
+    if (fn_names[i])
+      n += COUNTED_REF (fn_names[i]);
+  return n;
+}
 static program_t *uobj_prog = 0;	/* program of /c06/uobj: its ref is printed as p: */
 static object_t **anon = 0;		/* clones made by `clones n` */
 static int nanon = 0, capanon = 0;
 
+extern void clear_apply_cache (void);
+
+/* Freed memory must stay recognisable (poisoned, not handed out again) for the whole case: the 65 537-clone case
+ * frees about 30 MB. */
+const char *__asan_default_options (void)
+{
+  return "quarantine_size_mb=1024";
+}
+
 static void snapshot (long *o)
 {
+  /* The apply cache (src/apply.c) keeps a string reference on the function name of every entry, also of
+   * "no such function" entries ("create" of an object without create()), and evicts entries by a slot index
+   * computed from POINTER values: which strings it holds depends on the address-space layout of the run.
+   * Empty it before every measurement so that the string counters only see real holders.
+   * (C06_NOCLEAR=1 restores the old behaviour, C06_EVICT=<n> then empties the cache once, before the n-th
+   * measurement, like a slot collision would: used to demonstrate the sensitivity, see notes/C06.md.) */
+  {
+    static int nth = 0;
+    const char *nc = getenv ("C06_NOCLEAR"), *ev = getenv ("C06_EVICT");
+    nth++;
+    if (!nc || (ev && atoi (ev) == nth))
+      clear_apply_cache ();
+  }
   o[0] = num_arrays;
   o[1] = (long) total_array_size;
   o[2] = num_mappings;
@@ -169,14 +205,14 @@ static void print_state (const char *status)
   else
     snprintf (pf, sizeof pf, "%u", (unsigned) uobj_prog->ref);
   if (pf[0] == 'x')
-    vh_out ("%s st:%ld,%ld,%ld,%ld,-,-,%ld p:%s", buf, now[0] - base[0], now[1] - base[1], now[2] - base[2],
+    vh_out ("%s st:%ld,%ld,%ld,%ld,-,-,%ld p:%s f:-", buf, now[0] - base[0], now[1] - base[1], now[2] - base[2],
             now[3] - base[3], now[6] - base[6], pf);
   else if (lpc_mode || applied)
-    vh_out ("%s st:%ld,%ld,%ld,%ld,%ld,-,%ld p:%s", buf, now[0] - base[0], now[1] - base[1], now[2] - base[2],
-            now[3] - base[3], now[4] - base[4], now[6] - base[6], pf);
+    vh_out ("%s st:%ld,%ld,%ld,%ld,%ld,-,%ld p:%s f:%ld", buf, now[0] - base[0], now[1] - base[1], now[2] - base[2],
+            now[3] - base[3], now[4] - base[4], now[6] - base[6], pf, fn_refs () - fn_base);
   else
-    vh_out ("%s st:%ld,%ld,%ld,%ld,%ld,%ld,%ld p:%s", buf, now[0] - base[0], now[1] - base[1], now[2] - base[2],
-            now[3] - base[3], now[4] - base[4], now[5] - base[5], now[6] - base[6], pf);
+    vh_out ("%s st:%ld,%ld,%ld,%ld,%ld,%ld,%ld p:%s f:%ld", buf, now[0] - base[0], now[1] - base[1], now[2] - base[2],
+            now[3] - base[3], now[4] - base[4], now[5] - base[5], now[6] - base[6], pf, fn_refs () - fn_base);
 }
 
 /* value of a slot points to freed memory? (the model's explicit use-after-free outcome) */
@@ -407,6 +443,22 @@ static int unit_op (int n, char **t, int *a)
     }
   else if (!strcmp (t[0], "rmcall"))
     remove_call_out_by_handle (call_handle[a[1]]);
+  else if (!strcmp (t[0], "inp"))
+    {
+      svalue_t fun, args[2];
+      object_t *save_co = current_object, *save_cg = command_giver;
+      fun.type = T_STRING;
+      fun.subtype = STRING_CONSTANT;
+      fun.u.string = "icb";
+      args[0] = *slot (a[2]);
+      args[1] = *slot (a[3]);
+      current_object = hobj (a[1]);
+      command_giver = user_ob;
+      if (!input_to (&fun, 0, 2, args))
+        vh_out ("harness-error input_to refused");
+      current_object = save_co;
+      command_giver = save_cg;
+    }
   else if (!strcmp (t[0], "sent") || !strcmp (t[0], "rmsent"))
     {
       svalue_t fun, args[2];
@@ -502,6 +554,10 @@ static int applicable (int n, char **t, int *a)
   if (!strcmp (op, "rmsent"))
     return n == 2 && a[1] >= 0 && a[1] < NSENT && sent_used[a[1]] && objok (sent_owner[a[1]])
       && hobj (sent_owner[a[1]]) == sent_ownerp[a[1]];
+  if (!strcmp (op, "inp"))
+    return n == 4 && objok (a[1]) && SL (a[2]) && SL (a[3]) && !input_pending && user_ob;
+  if (!strcmp (op, "input"))
+    return input_pending;
   if (!strcmp (op, "clones"))
     return n == 2 && !lpc_mode && a[1] > 0;
   if (!strcmp (op, "unclone"))
@@ -563,6 +619,27 @@ static int c06_cmd (char *line)
           }
         }
       {
+        /* the interactive user (before the baseline) */
+        error_context_t econ;
+        save_context (&econ);
+        if (!setjmp (econ.context))
+          {
+            object_t *save = current_object;
+            current_object = master_ob;
+            user_ob = clone_object ("/c06/user", 0);
+            current_object = save;
+            pop_context (&econ);
+          }
+        else
+          {
+            restore_context (&econ);
+            pop_context (&econ);
+            user_ob = 0;
+          }
+        if (user_ob)
+          create_test_interactive (user_ob);
+      }
+      {
         object_t *tmp = clone_uobj ();	/* loads the program before the baseline is taken */
         if (tmp)
           {
@@ -572,6 +649,12 @@ static int c06_cmd (char *line)
           }
       }
       snapshot (base);
+      {
+        static const char *nm[6] = { "cb", "cbs0", "cbs1", "cbs2", "cbs3", "act" };
+        for (int i = 0; i < 6; i++)
+          fn_names[i] = findstring (nm[i]);
+        fn_base = fn_refs ();
+      }
       return 1;
     }
   if (!started)
@@ -603,7 +686,7 @@ static int c06_cmd (char *line)
       {"fill", {1, 3, 0}}, {"assign", {1, 2, 0}}, {"aset", {1, 3, 0}}, {"aget", {1, 2, 0}},
       {"mset", {1, 2, 3}}, {"mdel", {1, 2, 0}}, {"push", {1, 0, 0}}, {"popto", {1, 0, 0}},
       {"setvar", {3, 0, 0}}, {"getvar", {1, 0, 0}}, {"oref", {1, 0, 0}}, {"call", {4, 5, 0}},
-      {"sent", {3, 4, 0}}, {"err", {1, 2, 0}}, {"efun", {2, 3, 0}}, {0, {0, 0, 0}}
+      {"sent", {3, 4, 0}}, {"inp", {2, 3, 0}}, {"err", {1, 2, 0}}, {"efun", {2, 3, 0}}, {0, {0, 0, 0}}
     };
     for (int u = 0; uses[u].op; u++)
       if (!strcmp (uses[u].op, t[0]))
@@ -659,6 +742,28 @@ static int c06_cmd (char *line)
         if (exist_used[o] == 2)
           exist_used[o] = 0;
     }
+  else if (!strcmp (t[0], "input"))
+    {
+      /* what the backend does with a line typed by the user while an input_to is pending */
+      save_context (&econ);
+      if (!setjmp (econ.context))
+        {
+          object_t *save_cg = command_giver;
+          command_giver = user_ob;
+          eval_cost = CONFIG_INT (__MAX_EVAL_COST__);
+          call_function_interactive (user_ob->interactive, "x");
+          command_giver = save_cg;
+          pop_context (&econ);
+        }
+      else
+        {
+          restore_context (&econ);
+          pop_context (&econ);
+          command_giver = 0;
+        }
+      input_pending = 0;
+      applied = 1;
+    }
   else if (!strcmp (t[0], "sweep"))
     {
       current_time += 2;
@@ -682,6 +787,8 @@ static int c06_cmd (char *line)
         }
       else if (!strcmp (t[0], "sent"))
         cg = hobj (a[2]);
+      else if (!strcmp (t[0], "inp"))
+        cg = user_ob;
       command_giver = cg;
       rc = vh_apply_str (main_ob, "do_op", 1, w, 0, 0);
       command_giver = 0;
@@ -728,6 +835,8 @@ static int c06_cmd (char *line)
         if (sent_used[k] && sent_owner[k] == a[1])
           sent_used[k] = 0;
     }
+  else if (!strcmp (t[0], "inp"))
+    input_pending = 1;
   else if (!strcmp (t[0], "call"))
     call_used[a[1]] = 1;
   else if (!strcmp (t[0], "rmcall"))
